@@ -43,3 +43,57 @@ pub fn main(args: &[String]) -> i32 {
     }
     0
 }
+
+/// C17: concurrent `build_file` calls.  stdin: one configuration per line, `<main path hex> <include dirs: hex,hex|->`
+/// (the files exist already).  Prints per configuration (tab separated): the observation of a build on its own, and every
+/// distinct observation seen when `threads` threads build all configurations `rounds` times at overlapping moments.
+pub fn main_fs(args: &[String]) -> i32 {
+    use avra_lib::builder::build_file;
+    use std::path::PathBuf;
+    let threads: usize = args.get(0).and_then(|x| x.parse().ok()).unwrap_or(8);
+    let rounds: usize = args.get(1).and_then(|x| x.parse().ok()).unwrap_or(20);
+    let text = |h: &str| String::from_utf8(unhex(h)).unwrap_or_default();
+    let cfgs: Vec<(PathBuf, std::collections::BTreeSet<PathBuf>)> = read_stdin()
+        .lines()
+        .filter(|l| !l.trim().is_empty())
+        .map(|l| {
+            let f: Vec<&str> = l.split_whitespace().collect();
+            let dirs = match f.get(1) {
+                Some(&"-") | None => Default::default(),
+                Some(d) => d.split(',').map(|x| PathBuf::from(text(x))).collect(),
+            };
+            (PathBuf::from(text(f[0])), dirs)
+        })
+        .collect();
+    let one = |c: &(PathBuf, std::collections::BTreeSet<PathBuf>)| {
+        let (m, d) = (c.0.clone(), c.1.clone());
+        crate::build::render(std::panic::catch_unwind(move || build_file(m, d)))
+    };
+    let n = cfgs.len();
+    let alone: Vec<String> = cfgs.iter().map(|c| one(c)).collect();
+    let seen: Arc<Mutex<Vec<BTreeSet<String>>>> = Arc::new(Mutex::new(vec![BTreeSet::new(); n]));
+    let cfgs = Arc::new(cfgs);
+    let mut hs = vec![];
+    for t in 0..threads {
+        let cfgs = cfgs.clone();
+        let seen = seen.clone();
+        hs.push(std::thread::Builder::new().stack_size(64 << 20).spawn(move || {
+            for k in 0..rounds * n.max(1) {
+                let i = (k + t) % n.max(1);
+                let c = &cfgs[i];
+                let (m, d) = (c.0.clone(), c.1.clone());
+                let o = crate::build::render(std::panic::catch_unwind(move || build_file(m, d)));
+                seen.lock().unwrap()[i].insert(o);
+            }
+        }).unwrap());
+    }
+    for h in hs {
+        let _ = h.join();
+    }
+    let seen = seen.lock().unwrap();
+    for i in 0..n {
+        let c: Vec<String> = seen[i].iter().cloned().collect();
+        println!("{}\t{}", alone[i], c.join("|"));
+    }
+    0
+}
